@@ -5,4 +5,3 @@ CHECK_DEADLOCK FALSE
 CONSTANTS
   PullMutant = "none"
   BuildMutant = "none"
-  SentinelCarried = TRUE
